@@ -556,20 +556,26 @@ func (s *Solver) oneShot(assertions []*Term, wantModel []*Term) (string, Model) 
 	s.SolverSec += dt.Seconds()
 	s.Queries++
 	txt := string(out)
-	if strings.Contains(txt, "(error") {
-		lastSolverError = firstLineWith(txt, "(error")
-		return "unknown", nil
-	}
-	lines := strings.SplitN(strings.TrimSpace(txt), "\n", 2)
-	switch strings.TrimSpace(lines[0]) {
-	case "unsat":
-		return "unsat", nil
-	case "sat":
-		var m Model
-		if len(lines) > 1 {
-			m = parseModel(lines[1])
+	lines := strings.Split(strings.TrimSpace(txt), "\n")
+	for i, l := range lines {
+		l = strings.TrimSpace(l)
+		if strings.HasPrefix(l, "(error") {
+			// an error before the verdict may mean a dropped assertion
+			lastSolverError = l
+			return "unknown", nil
 		}
-		return "sat", m
+		switch l {
+		case "unsat":
+			return "unsat", nil
+		case "sat":
+			rest := strings.Join(lines[i+1:], "\n")
+			if strings.Contains(rest, "(error") {
+				return "sat", nil
+			}
+			return "sat", parseModel(rest)
+		case "unknown", "timeout":
+			return "unknown", nil
+		}
 	}
 	return "unknown", nil
 }
